@@ -43,9 +43,23 @@ impl Display for CompoundKind {
     }
 }
 
-#[derive(Debug, Eq, PartialEq, Clone, Default)]
+#[derive(Eq, PartialEq, Clone, Default)]
 pub struct Bind {
     bound_generics: HashMap<Identifier, Arc<XType>>,
+}
+
+// rendered inside compilation error messages: the order must not depend on the hasher
+impl Debug for Bind {
+    fn fmt(&self, f: &mut Formatter<'_>) -> std::fmt::Result {
+        let mut entries: Vec<_> = self
+            .bound_generics
+            .iter()
+            .map(|(k, v)| (format!("{k:?}"), v))
+            .collect();
+        entries.sort_by(|a, b| a.0.cmp(&b.0));
+        write!(f, "Bind ")?;
+        f.debug_map().entries(entries).finish()
+    }
 }
 
 impl Bind {
@@ -109,7 +123,19 @@ where
     }
 }
 
-#[derive(Clone, Debug, Eq, PartialEq)]
+// rendered inside compilation error messages: `indices` (a hash map derived from `fields`) is
+// left out so that the text does not depend on the hasher
+impl Debug for XCompoundSpec {
+    fn fmt(&self, f: &mut Formatter<'_>) -> std::fmt::Result {
+        f.debug_struct("XCompoundSpec")
+            .field("name", &self.name)
+            .field("generic_names", &self.generic_names)
+            .field("fields", &self.fields)
+            .finish()
+    }
+}
+
+#[derive(Clone, Eq, PartialEq)]
 pub struct XCompoundSpec {
     pub(crate) name: Identifier,
     pub(crate) generic_names: Vec<Identifier>,
